@@ -1,0 +1,120 @@
+//! Verification probes (only compiled with `--cfg amiquip_verif`).
+//!
+//! Thin public wrappers around I/O-loop internals so that an external harness can drive them
+//! directly. Nothing here is used by the library itself.
+
+use super::channel_slots::ChannelSlots;
+use super::content_collector::{CollectorResult, ContentCollector};
+use crate::{Delivery, Get, Result, Return};
+use amq_protocol::frame::AMQPContentHeader;
+use amq_protocol::protocol::basic::{Deliver, GetOk, Return as AmqpReturn};
+use std::collections::HashMap;
+use std::sync::atomic::{AtomicBool, Ordering};
+use std::sync::Mutex;
+use std::thread::ThreadId;
+
+/// Completed content as reported by the collector.
+#[derive(Debug)]
+pub enum Collected {
+    Delivery(String, Delivery),
+    Return(Return),
+    Get(Get),
+}
+
+impl From<CollectorResult> for Collected {
+    fn from(r: CollectorResult) -> Collected {
+        match r {
+            CollectorResult::Delivery((tag, delivery)) => Collected::Delivery(tag, delivery),
+            CollectorResult::Return(ret) => Collected::Return(ret),
+            CollectorResult::Get(get) => Collected::Get(get),
+        }
+    }
+}
+
+/// Wrapper over the per-channel content collector.
+pub struct CollectorProbe(ContentCollector);
+
+impl CollectorProbe {
+    pub fn new(channel_id: u16) -> CollectorProbe {
+        CollectorProbe(ContentCollector::new(channel_id))
+    }
+
+    pub fn deliver(&mut self, deliver: Deliver) -> Result<()> {
+        self.0.collect_deliver(deliver)
+    }
+
+    pub fn return_(&mut self, return_: AmqpReturn) -> Result<()> {
+        self.0.collect_return(return_)
+    }
+
+    pub fn get_ok(&mut self, get_ok: GetOk) -> Result<()> {
+        self.0.collect_get(get_ok)
+    }
+
+    pub fn header(&mut self, header: AMQPContentHeader) -> Result<Option<Collected>> {
+        Ok(self.0.collect_header(header)?.map(Collected::from))
+    }
+
+    pub fn body(&mut self, body: Vec<u8>) -> Result<Option<Collected>> {
+        Ok(self.0.collect_body(body)?.map(Collected::from))
+    }
+}
+
+/// Wrapper over the channel-id table.
+pub struct SlotsProbe(ChannelSlots<()>);
+
+impl SlotsProbe {
+    pub fn new(channel_max: u16) -> SlotsProbe {
+        let mut slots = ChannelSlots::new();
+        slots.set_channel_max(channel_max);
+        SlotsProbe(slots)
+    }
+
+    pub fn insert(&mut self, channel_id: Option<u16>) -> Result<u16> {
+        self.0.insert(channel_id, |id| Ok(((), id)))
+    }
+
+    pub fn remove(&mut self, channel_id: u16) -> bool {
+        self.0.remove(channel_id).is_some()
+    }
+
+    pub fn drain(&mut self) -> Vec<u16> {
+        self.0.drain().map(|(id, ())| id).collect()
+    }
+
+    pub fn open_ids(&self) -> Vec<u16> {
+        let mut ids: Vec<u16> = self.0.iter().map(|(id, _)| *id).collect();
+        ids.sort_unstable();
+        ids
+    }
+}
+
+static BATCH_TRACE_ON: AtomicBool = AtomicBool::new(false);
+static BATCH_TRACE: Mutex<Option<HashMap<ThreadId, Vec<Vec<usize>>>>> = Mutex::new(None);
+
+/// Turn recording of event-batch compositions on or off (off by default).
+pub fn batch_trace_enable(on: bool) {
+    BATCH_TRACE_ON.store(on, Ordering::SeqCst);
+}
+
+/// Take (and clear) the batches recorded for one I/O thread.
+pub fn batch_trace_take(thread: ThreadId) -> Vec<Vec<usize>> {
+    let mut guard = BATCH_TRACE.lock().unwrap_or_else(|e| e.into_inner());
+    guard
+        .as_mut()
+        .and_then(|m| m.remove(&thread))
+        .unwrap_or_default()
+}
+
+pub(super) fn record_batch<I: Iterator<Item = usize>>(tokens: I) {
+    if !BATCH_TRACE_ON.load(Ordering::Relaxed) {
+        return;
+    }
+    let tokens: Vec<usize> = tokens.collect();
+    let mut guard = BATCH_TRACE.lock().unwrap_or_else(|e| e.into_inner());
+    guard
+        .get_or_insert_with(HashMap::new)
+        .entry(std::thread::current().id())
+        .or_default()
+        .push(tokens);
+}
